@@ -60,7 +60,7 @@ def enclosing_fn(lines, ln):
     return '?'
 
 
-def run_unit(name, specs, outdir, probe=False, rlimit=None, threads=4):
+def run_unit(name, specs, outdir, probe=False, rlimit=None, threads=4, seed=None):
     """Generate and verify one unit.  If Verus REJECTS the input (type error, unsupported construct, unresolved name in an
     annotation) and every such error lies inside extracted functions, those functions are demoted to contract-only stubs
     (reported as undecided) and the unit is run again, so that one unreadable function does not hide the others."""
@@ -72,10 +72,11 @@ def run_unit(name, specs, outdir, probe=False, rlimit=None, threads=4):
         except gen.GenError as e:
             ur.gen_error = str(e)
             return ur
-        ur.path = os.path.join(outdir, name + ('_probe' if probe else '') + '.rs')
+        ur.path = os.path.join(outdir, name + ('_probe_tail' if probe == 'tail' else '_probe' if probe else '') + '.rs')
         with open(ur.path, 'w') as f:
             f.write(ur.unit.text)
-        ur.res = verus.run_verus(ur.path, rlimit=rlimit, threads=threads)
+        ur.res = verus.run_verus(ur.path, rlimit=rlimit, threads=threads,
+                                 extra=(['--smt-option', 'smt.random_seed=%d' % seed, '--smt-option', 'sat.random_seed=%d' % seed] if seed else ()))
         if not ur.res.fatal:
             return ur
         culprits = {}
@@ -186,6 +187,15 @@ def repo_state():
     return {'head': git('rev-parse', 'HEAD'), 'dirty_files': [l[3:] for l in git('status', '--porcelain').splitlines()][:50]}
 
 
+def probe_hits(pr):
+    ptxt = pr.unit.text.split('\n')
+    hit = set()
+    for d in pr.res.diags:
+        if d['level'] == 'error' and d['line'] and 0 < d['line'] <= len(ptxt) and '__PROBE__' in ptxt[d['line'] - 1]:
+            hit.add(ptxt[d['line'] - 1].split('__PROBE__')[1].strip())
+    return hit
+
+
 def known_findings(pid):
     out = []
     if os.path.exists(KNOWN):
@@ -224,6 +234,8 @@ def check_property(pid, tier, seed, replay_only=None):
     shutil.rmtree(outdir, ignore_errors=True)
     os.makedirs(outdir, exist_ok=True)
     os.makedirs(outdir + '_half', exist_ok=True)
+    for _sd in (3, 11):
+        os.makedirs(outdir + '_seed%d' % _sd, exist_ok=True)
     undecided = []
     try:
         specs = gen.load_specs()
@@ -231,16 +243,17 @@ def check_property(pid, tier, seed, replay_only=None):
     except gen.GenError as e:
         undecided.append('generator: %s' % e)
         specs, units = {}, []
-    runs, probes = {}, {}
+    runs, probes, tprobes = {}, {}, {}
     rl = cfg.get('rlimit')
     with concurrent.futures.ThreadPoolExecutor(max_workers=8) as ex:
         futs = {}
         for u in units:
             futs[ex.submit(run_unit, u, specs, outdir, False, rl, 4)] = ('main', u)
             futs[ex.submit(run_unit, u, specs, outdir, True, rl, 4)] = ('probe', u)
+            futs[ex.submit(run_unit, u, specs, outdir, 'tail', rl, 4)] = ('tail', u)
         for f in concurrent.futures.as_completed(futs):
             kind, u = futs[f]
-            (runs if kind == 'main' else probes)[u] = f.result()
+            {'main': runs, 'probe': probes, 'tail': tprobes}[kind][u] = f.result()
 
     # a function that exhausts the solver budget is re-tried once with six times the budget before it is called undecided
     # (a changed body can make the same proof search much longer; the answer, either way, is then a definite one)
@@ -337,6 +350,26 @@ def check_property(pid, tier, seed, replay_only=None):
                     else:
                         undecided.append('unit %s: precondition of %s looks vacuous (assert(false) at function head was not refuted)' % (u, em.name))
 
+    # end-of-body reachability probes: `assert(false)` after the last top-level statement / loop of every function must still
+    # be refuted wherever it was refuted on the unchanged tree (contradictory loop invariants or assumed callee postconditions
+    # would make everything behind them vacuously true)
+    tail_total, tail_ok = 0, 0
+    for u in units:
+        tp = tprobes.get(u)
+        want = set(base.get('units', {}).get(u, {}).get('tail_reachable', []))
+        if tp is None or tp.gen_error or tp.res is None or tp.res.fatal or runs[u].gen_error or runs[u].res.fatal:
+            continue
+        hit = probe_hits(tp)
+        lost_here = set(n for (n, _) in tp.unit.lost)
+        for em in tp.unit.items:
+            if em.mode == 'verify' and em.name in want:
+                tail_total += 1
+                if em.name in hit:
+                    tail_ok += 1
+                elif em.name not in lost_here and not any(f['function'] == em.name for f in failures):
+                    undecided.append('unit %s: the end of %s is no longer reachable for the verifier (assert(false) there was not refuted): '
+                                     'an invariant or an assumed contract has become contradictory' % (u, em.name))
+
     # ---------------------------------------------------------------- thorough tier: proof-stability re-run
     stability = None
     if tier == 'thorough' and units and not replay_only:
@@ -351,9 +384,25 @@ def check_property(pid, tier, seed, replay_only=None):
                 continue
             st_ms += sr.res.smt_ms
             for k, v in sr.res.functions.items():
-                if v['success'] is False:
+                if v['success'] is False and k.split('::')[-1] not in set(f['function'].split('::')[-1] for f in failures):
                     fragile.append('%s::%s' % (u, k.split('::', 1)[-1]))
-        stability = {'rlimit': 5, 'default_rlimit': 10, 'functions_failing_only_under_half_budget': sorted(set(fragile)), 'solver_time_ms': st_ms}
+        # ... and with two other solver seeds at the full budget (proofs that lean on nonlinear arithmetic or on a lucky
+        # quantifier instantiation order show up here)
+        seed_fragile = []
+        failing_now = set(f['function'].split('::')[-1] for f in failures)
+        for sd in (3, 11):
+            with concurrent.futures.ThreadPoolExecutor(max_workers=8) as ex:
+                sres = dict(zip(units, ex.map(lambda u: run_unit(u, specs, outdir + '_seed%d' % sd, False, rl, 4, sd), units)))
+            for u in units:
+                sr = sres[u]
+                if sr.gen_error or sr.res is None or sr.res.fatal:
+                    continue
+                st_ms += sr.res.smt_ms
+                for k, v in sr.res.functions.items():
+                    if v['success'] is False and k.split('::')[-1] not in failing_now:
+                        seed_fragile.append('%s::%s (seed %d)' % (u, k.split('::', 1)[-1], sd))
+        stability = {'rlimit': 5, 'default_rlimit': 10, 'functions_failing_only_under_half_budget': sorted(set(fragile)),
+                     'functions_failing_only_under_another_solver_seed': sorted(set(seed_fragile)), 'seeds': [3, 11], 'solver_time_ms': st_ms}
     # ---------------------------------------------------------------- Kani side-car
     kani_results, kani_violations = [], []
     hs = [h for h in kanimod.load_harness_files() if pid in h.props and not (tier == 'quick' and cfg.get('kani_tier', {}).get(h.name) == 'thorough')]
@@ -465,7 +514,8 @@ def check_property(pid, tier, seed, replay_only=None):
         'functions_under_contract': [f for f in functions if f.get('src', '').startswith('vibrato') or f.get('src', '').startswith('map')],
         'lemmas': [f for f in functions if not (f.get('src', '').startswith('vibrato') or f.get('src', '').startswith('map'))],
         'units': units, 'rewrite_rules_applied': rules_applied,
-        'vacuity_probes': {'required_to_fail': probe_total, 'failed_as_required': probe_ok},
+        'vacuity_probes': {'required_to_fail': probe_total, 'failed_as_required': probe_ok,
+                           'end_of_body_required_to_fail': tail_total, 'end_of_body_failed_as_required': tail_ok},
         'solver_time_ms': solver_ms, 'backend': 'verus %s (z3)' % verus_version,
         'samples': samples[:8] or [{'note': 'no obligations generated'}],
         'stability_rerun': stability,
@@ -486,8 +536,8 @@ def check_property(pid, tier, seed, replay_only=None):
     json.dump(ev, open(os.path.join(VERIF, 'evidence', pid + '.json'), 'w'), indent=1)
 
     # ---------------------------------------------------------------- report
-    print('[%s] units=%s obligations=%d discharged=%d probes=%d/%d solver=%dms wall=%.1fs' %
-          (pid, ','.join(units), obligations, discharged, probe_ok, probe_total, solver_ms, time.time() - t0))
+    print('[%s] units=%s obligations=%d discharged=%d probes=%d/%d+%d/%d solver=%dms wall=%.1fs' %
+          (pid, ','.join(units), obligations, discharged, probe_ok, probe_total, tail_ok, tail_total, solver_ms, time.time() - t0))
     seen = set()
     for k, f in kf_printed:
         if k['line'] not in seen:
@@ -534,7 +584,9 @@ def rebaseline():
             if em.mode == 'verify' and em.name not in failed:
                 fns[em.name] = {'loops': em.n_loops, 'clauses': len(em.clauses) + 1}
         lemmas = sorted(set(k.split('::')[-1] for k, v in ur.res.functions.items() if v['success'] and k.split('::')[-1] not in failed))
-        base['units'][u] = {'functions': fns, 'lemmas': lemmas, 'trusted': [t for (_, t) in ur.unit.trusted]}
+        tp = run_unit(u, specs, outdir, 'tail')
+        tail = sorted(probe_hits(tp)) if (tp.res is not None and not tp.gen_error and not tp.res.fatal) else []
+        base['units'][u] = {'functions': fns, 'lemmas': lemmas, 'trusted': [t for (_, t) in ur.unit.trusted], 'tail_reachable': tail}
         print('unit %s: %d functions under contract, %d verus items ok, %d failing' % (u, len(fns), len(lemmas), len(failed)))
     for pid, cfg in props.items():
         try:
